@@ -18,7 +18,7 @@ import re
 import sys
 from concurrent.futures import ThreadPoolExecutor
 
-REPO = os.environ.get("VERIF_REPO_PATH") or "/repo"
+from harness import REPO
 if REPO != "/repo" and REPO not in sys.path:
     sys.path.insert(0, REPO)
 
@@ -56,7 +56,8 @@ def export_flow(fid, src, elements):
                 heads.append(int(h))
             except (TypeError, ValueError):
                 unmapped.append({"i": i, "kind": "branch_head", "value": repr(h)})
-        els.append({"t": str(e.get("_type")), "abs": bool(e.get("_absolute")), "offs": offs, "heads": heads})
+        els.append({"t": str(e.get("_type")), "abs": bool(e.get("_absolute")), "offs": offs, "heads": heads,
+                    "nested": any(isinstance(e.get(k), list) for k in ("then", "else", "do", "any", "branches", "elements"))})
     return {"id": str(fid), "src": src, "els": els}, unmapped
 
 
@@ -95,17 +96,61 @@ def _dir_is_v2(path, cache={}):
     return False
 
 
+_STMT = re.compile(r"^(\s+)(bot |user |\$|execute |do )")
+
+
+def with_labels(src, rnd, goto):
+    """The same program with `label` / `checkpoint` statements (and, if asked, `goto` statements back or forward to
+    them) inserted at statement positions - only the compiled form is checked, the program is never run."""
+    lines = src.split("\n")
+    out, labels, flow_labels = [], 0, []
+    for ln in lines:
+        if ln.startswith("define "):
+            flow_labels = []
+        m = _STMT.match(ln)
+        if m and rnd.random() < 0.35 and not (out and out[-1].startswith("define ")):
+            labels += 1
+            name = "L%d" % labels
+            out.append("%s%s %s" % (m.group(1), rnd.choice(["label", "checkpoint"]), name))
+            flow_labels.append(name)
+        out.append(ln)
+        if goto and m and flow_labels and rnd.random() < 0.2:
+            out.append("%sgoto %s" % (m.group(1), rnd.choice(flow_labels)))
+    return "\n".join(out), labels
+
+
 def collect(tier, seed):
     """-> (exported flows, stats)"""
     flows, stats = [], {"generated_programs": 0, "files_v1": 0, "files_skipped_v2": 0, "files_skipped_parse_error": 0,
                         "unmapped_offsets": []}
+    import random
+    rnd = random.Random(seed * 7919 + 5)
+    stats["label_variants"] = stats["label_variants_rejected"] = 0
     for p in progs1.generate(tier, seed, with_when=True):
         stats["generated_programs"] += 1
-        for fid, fc in parse_source(progs1.render(p), "prog%d.co" % p["id"]).items():
-            ex, un = export_flow(fid, "generated program %d" % p["id"], fc.elements)
-            ex["prog"] = p["id"]
-            flows.append(ex)
-            stats["unmapped_offsets"] += [dict(u, flow=fid, src=ex["src"]) for u in un]
+        base = progs1.render(p)
+        variants = [("", base)]
+        for goto in (False, True):
+            v, n = with_labels(base, rnd, goto)
+            if n:
+                variants.append((" + labels" + (" + gotos" if goto else ""), v))
+        for tag, text in variants:
+            try:
+                cfgs = parse_source(text, "prog%d.co" % p["id"])
+            except Exception:
+                if not tag:
+                    raise
+                stats["label_variants_rejected"] += 1      # the loader rejects it: nothing to check
+                continue
+            if tag:
+                stats["label_variants"] += 1
+            for fid, fc in cfgs.items():
+                ex, un = export_flow(fid, "generated program %d%s" % (p["id"], tag), fc.elements)
+                ex["prog"] = p["id"]
+                if tag:
+                    ex["source"] = text
+                flows.append(ex)
+                stats["unmapped_offsets"] += [dict(u, flow=fid, src=ex["src"]) for u in un]
     for path in shipped_files():
         try:
             content = open(path, errors="replace").read()
@@ -162,8 +207,10 @@ def check_v1_closed(ctx, tier):
                 bad = sorted(v["bad"], key=lambda b: (b["i"], b["kind"]))
                 b0 = bad[0]
                 violations.append({
-                    "kind": "v1-offset-outside-flow",
-                    "what": "Colang 1.0 flow '%s' (%s, %d elements): element %d (%s) %s offset %d -> target %d outside the flow" % (
+                    "kind": "v1-construct-left-unexpanded" if b0["kind"] == "unexpanded" else "v1-offset-outside-flow",
+                    "what": ("Colang 1.0 flow '%s' (%s, %d elements): element %d is a source-level '%s' construct left in the compiled flow" % (
+                        fl["id"], fl["src"], len(fl["els"]), b0["i"], fl["els"][b0["i"]]["t"])) if b0["kind"] == "unexpanded" else
+                            "Colang 1.0 flow '%s' (%s, %d elements): element %d (%s) %s offset %d -> target %d outside the flow" % (
                         fl["id"], fl["src"], len(fl["els"]), b0["i"], fl["els"][b0["i"]]["t"], b0["kind"], b0["off"], b0["target"]),
                     "case": {"flow": fl, "bad": bad,
                              "sig": {"version": "1.0", "offset_kind": b0["kind"], "element": fl["els"][b0["i"]]["t"],
